@@ -47,6 +47,14 @@ def disk_specs(tier):
         spec = dict(t1)
         spec.update(grammar=gr, prince=D.PRINCE)
         out.append(spec)
+    # words without case (or with a caseless letter where two equally probable masks differ): two masks, two derivations, the same string twice
+    t2 = dict(t0)
+    t2.update(A={2: [('\u4e2d\u56fd', .5), ('ab', .3), ('a\u4e2d', .2)], 1: [('\u00ba', .6), ('b', .4)]},
+              C={2: [('LL', .4), ('UL', .3), ('LU', .3)], 1: [('L', .5), ('U', .5)]})
+    for gr in ([('A2', .6), ('A1D1', .4)], [('D1A2O1', .5), ('A1A2', .5)]):
+        spec = dict(t2)
+        spec.update(grammar=gr, prince=D.PRINCE)
+        out.append(spec)
     step = 29 if tier == 'quick' else 5
     out += list(D.specs(tier))[::step]
     return out
